@@ -16,7 +16,7 @@ Proof. reflexivity. Qed.
 Lemma live_tnone p r : live p (set_ty TNone r) = false.
 Proof. unfold live. simpl. apply andb_false_r. Qed.
 
-Lemma live_tdel p r : c_pk r = p -> live p (set_ty TDel r) = true.
+Lemma live_tdel p r : c_pk r = p -> live p (del_copy r) = true.
 Proof. intro P. unfold live. simpl. rewrite P, beqb_refl. auto. Qed.
 
 Lemma crow_ok_set_data d r : crow_ok r -> data_ok d = true -> crow_ok (set_data d r).
@@ -24,6 +24,13 @@ Proof. intros [A [B C]] D. unfold crow_ok. simpl. auto. Qed.
 
 Lemma crow_ok_set_ty t r : crow_ok r -> t <> TUpdate -> crow_ok (set_ty t r).
 Proof. intros [A [B C]] N. unfold crow_ok. simpl. split; [|split]; auto; congruence. Qed.
+
+Lemma crow_ok_del_copy r : crow_ok r -> crow_ok (del_copy r).
+Proof.
+  intros [A [B C]]. unfold crow_ok, del_copy. cbn [c_data c_old c_ty].
+  split; [|split]; auto; try discriminate.
+  destruct (c_old r) as [d0|]; auto.
+Qed.
 
 (** ** a new cached row for a key without pending row *)
 Lemma inv_append st m0 m p r' :
@@ -107,15 +114,14 @@ Proof.
       eapply kinv_frame_set; eauto; simpl; try congruence. apply (i_keys _ _ _ I).
 Qed.
 
-(** ** Del of a saved row with a pending update that kept the indexed fields *)
+(** ** Del of a saved row with a pending update: the Del row carries the saved data *)
 Lemma inv_del_updated st m0 m p i r d0 :
   inv st m0 m -> nth_error (rows st) i = Some r -> c_pk r = p -> lives p (rows st) = [r] ->
-  get p (rmap st) = Some i -> c_ty r = TUpdate -> get p m0 = Some d0 ->
-  idx_same (c_data r) d0 = true ->
+  get p (rmap st) = Some i -> c_ty r = TUpdate -> c_old r = Some d0 -> get p m0 = Some d0 ->
   inv (add_row_cache (mkSt (kv st) (set_nth i (set_ty TNone r) (rows st)) (del p (rmap st)))
-         (set_ty TDel r)) m0 (del p m).
+         (del_copy r)) m0 (del p m).
 Proof.
-  intros I N P L R T O0 IS.
+  intros I N P L R T Old O0.
   assert (CR : crow_ok r).
   { eapply Forall_forall; [apply (i_rows _ _ _ I)|]. eapply nth_error_In; eauto. }
   unfold add_row_cache. simpl. rewrite P.
@@ -128,13 +134,13 @@ Proof.
   - apply rows_ok_del; [exact (i_s _ _ _ I)|exact (i_ok _ _ _ I)].
   - apply Forall_app. split.
     + apply Forall_set_nth; [exact (i_rows _ _ _ I)|]. apply crow_ok_set_ty; auto. discriminate.
-    + constructor; auto. apply crow_ok_set_ty; auto. discriminate.
+    + constructor; auto. apply crow_ok_del_copy; auto.
   - intro q. destruct (bytes_eq_dec q p) as [->|NE].
     + rewrite (get_del_same p _ (del_sorted p _ (i_srm _ _ _ I))), (get_del_same p m (i_s _ _ _ I)). simpl. right.
-      exists (set_ty TDel r), d0. rewrite lives_app.
+      exists (del_copy r), d0. rewrite lives_app.
       rewrite (lives_set_nth_same p i r _ _ N L (live_of_lives _ _ _ L)).
       rewrite live_tnone. cbn [lives filter app]. rewrite (live_tdel p r P).
-      repeat split; auto.
+      repeat split; auto. unfold del_copy. rewrite Old. reflexivity.
     + rewrite !get_del_other by auto.
       apply kinv_frame_app; [simpl; congruence|].
       eapply kinv_frame_set; eauto; simpl; try congruence. apply (i_keys _ _ _ I).
@@ -162,7 +168,6 @@ Proof.
         by (unfold live; cbn [c_pk c_ty]; rewrite beqb_refl; auto).
       exists (mkC TDel p d0 None), d0. rewrite lives_app, L. cbn [lives filter app]. rewrite LV.
       repeat split; auto.
-      unfold idx_same. rewrite !beqb_refl. auto.
     + rewrite !get_del_other by auto. apply kinv_frame_app; [simpl; congruence|apply (i_keys _ _ _ I)].
 Qed.
 
@@ -233,13 +238,12 @@ Lemma step_del st m0 m p :
   inv st m0 m -> del_safe m0 m p = true ->
   exists st', m_del st p = (fst (s_step m (ODel p)), st') /\ inv st' m0 (snd (s_step m (ODel p))).
 Proof.
-  intros I G. unfold del_safe in G. apply andb_true_iff in G. destruct G as [ND IS].
-  apply negb_true_iff in ND. simpl.
+  intros I ND. unfold del_safe in ND. apply negb_true_iff in ND. simpl.
   destruct (find_row_spec _ _ _ _ I ND) as [i r R F N P L O T | d0 R L O0 O F | R L O0 O F];
     unfold m_del, mem; rewrite F, O; simpl.
   - rewrite P. destruct T as [[Ty O0]|[Ty [d0 [Old O0]]]]; rewrite Ty.
     + eexists; split; [reflexivity|]. eapply inv_del_added; eauto.
-    + eexists; split; [reflexivity|]. rewrite O0, O in IS. eapply inv_del_updated; eauto.
+    + eexists; split; [reflexivity|]. eapply inv_del_updated; eauto.
   - eexists; split; [reflexivity|]. unfold set_ty. simpl. apply inv_del_saved; auto.
   - eexists; split; eauto.
 Qed.
@@ -330,4 +334,84 @@ Proof.
   destruct (table_refines_map_partial ops G) as [_ K]. unfold saved_agrees in K. rewrite K.
   destruct (run_refines ops init [] [] inv_init G) as [_ [m0' I]].
   apply list_index_full; auto; apply I.
+Qed.
+
+(** ** histories without Replace whose answers agree with the map
+
+    Without the guard: if every call of a Replace-free history answered like
+    the map, the history is inside the guard — the first operation outside it
+    would be an Add/Update/Del on a key whose saved row was deleted in this
+    window, and there table.go answers differently from the map (finding 1).
+    So for such histories a Save leaves exactly the map's rows and index
+    entries, whatever a pending Update changed before a Del. *)
+Definition no_replace (ops : list op) : bool := forallb (fun o => negb (is_replace o)) ops.
+
+Lemma find_row_deleted st m0 m p :
+  inv st m0 m -> deleted_saved m0 m p = true ->
+  exists d0, find_row st p = (EOk, Some (mkC TNone p d0 None), None) /\ get p m = None.
+Proof.
+  intros I DS. unfold deleted_saved in DS.
+  destruct (get p m0) as [d0|] eqn:G0; [|discriminate].
+  destruct (get p m) as [d|] eqn:G; [discriminate|].
+  pose proof (i_keys _ _ _ I p) as K. unfold kinv in K. rewrite G0, G in K.
+  destruct (get p (rmap st)) as [i|] eqn:R.
+  - destruct K as [r [_ [_ [_ [O _]]]]]. discriminate.
+  - exists d0. split; auto. unfold find_row. rewrite R, (i_kv _ _ _ I).
+    rewrite get_data_encode by (apply I). rewrite G0. auto.
+Qed.
+
+Lemma run_cons_fst st o tl :
+  fst (run st (o :: tl)) = fst (step st o) :: fst (run (snd (step st o)) tl).
+Proof. simpl. destruct (step st o) as [e st1]. simpl. destruct (run st1 tl). auto. Qed.
+
+Lemma s_run_cons_fst m o tl :
+  fst (s_run m (o :: tl)) = fst (s_step m o) :: fst (s_run (snd (s_step m o)) tl).
+Proof. simpl. destruct (s_step m o) as [e m1]. simpl. destruct (s_run m1 tl). auto. Qed.
+
+Lemma agree_op_safe st m0 m o :
+  inv st m0 m -> op_keys_ok o = true -> is_replace o = false ->
+  fst (step st o) = fst (s_step m o) -> op_safe m0 m o = true.
+Proof.
+  intros I K NR A. destruct o as [d|d|pk d|pk|d|]; simpl in K, NR; try discriminate; cbn [op_safe].
+  - rewrite K. destruct (deleted_saved m0 m (r_pk d)) eqn:DS; auto. exfalso.
+    destruct (find_row_deleted _ _ _ _ I DS) as [d0 [F G]].
+    simpl in A. unfold m_add, mem in A. rewrite F, G in A. discriminate.
+  - destruct (beqb (r_pk d) pk) eqn:B; auto. rewrite K.
+    destruct (deleted_saved m0 m pk) eqn:DS; auto. exfalso.
+    destruct (find_row_deleted _ _ _ _ I DS) as [d0 [F G]].
+    simpl in A. unfold m_update, mem in A. rewrite B, F, G in A. discriminate.
+  - unfold del_safe. destruct (deleted_saved m0 m pk) eqn:DS; auto. exfalso.
+    destruct (find_row_deleted _ _ _ _ I DS) as [d0 [F G]].
+    simpl in A. unfold m_del, mem in A. rewrite F, G in A. discriminate.
+  - unfold del_safe. destruct (deleted_saved m0 m (r_pk d)) eqn:DS; auto. exfalso.
+    destruct (find_row_deleted _ _ _ _ I DS) as [d0 [F G]].
+    simpl in A. unfold m_del, mem in A. rewrite F, G in A. discriminate.
+  - reflexivity.
+Qed.
+
+Lemma agree_safe ops : forall st m0 m,
+  inv st m0 m -> keys_ok ops = true -> no_replace ops = true ->
+  fst (run st ops) = fst (s_run m ops) -> safe_from m0 m ops = true.
+Proof.
+  induction ops as [|o tl IH]; intros st m0 m I K NR A; [reflexivity|].
+  unfold keys_ok, no_replace in K, NR. cbn [forallb] in K, NR.
+  apply andb_true_iff in K, NR. destruct K as [K1 K2], NR as [NR1 NR2].
+  apply negb_true_iff in NR1.
+  rewrite run_cons_fst, s_run_cons_fst in A. inversion A as [[A1 A2]].
+  pose proof (agree_op_safe _ _ _ _ I K1 NR1 A1) as G1.
+  cbn [safe_from]. rewrite G1. cbn [andb].
+  destruct (is_save o) eqn:SV.
+  - destruct o; try discriminate. cbn [step s_step snd] in *.
+    destruct (save_step _ _ _ I) as [st1 [E I1]]. rewrite E in A2. cbn [snd] in A2.
+    apply (IH st1 m m I1 K2 NR2 A2).
+  - destruct (step_ok _ _ _ _ I G1 SV) as [st1 [E I1]]. rewrite E in A2. cbn [snd] in A2.
+    apply (IH st1 m0 _ I1 K2 NR2 A2).
+Qed.
+
+Theorem update_del_fixed ops :
+  keys_ok ops = true -> forallb (fun o => negb (is_replace o)) ops = true ->
+  errs_agree ops -> saved_agrees ops.
+Proof.
+  intros K NR A. apply table_refines_map_partial.
+  exact (agree_safe ops init [] [] inv_init K NR A).
 Qed.
